@@ -329,6 +329,8 @@ def py_verdict(c):
     if any(v == "dontcare" for _, (v, _), *_ in vs):
         return "dontcare", None
     cmp_dims = [x for x in vs if not (x[0] == "time" and c["trng"]["d"] == 2)]
+    if any(o[1] is None and nt != nd for _, _, nt, nd, t, o in cmp_dims):
+        return "accept", "open_component"      # an open result stop means the frame's size, not the target's
     if any(t[1] is None or o[1] is None for _, _, _, _, t, o in cmp_dims):
         return "accept", "absent_stop"
     if any(_resolve(t, nt)[0] != _resolve(o, nd)[0] for _, _, nt, nd, t, o in cmp_dims):
@@ -337,19 +339,18 @@ def py_verdict(c):
 
 
 def known_classes(c):
-    """defect classes of the unchanged tree this case falls into (generator steering only)"""
+    """still-open defect classes of the tree this case falls into (generator steering only): at most one per case, so
+    that the signature of a violation names one class.  Repaired classes (F6a-c, F20, chi-sub, t3d) mix freely."""
     out = []
     v, cls = py_verdict(c)
-    fl = fit_flags(c)
     if v == "reject":
-        if cls in ("time_extent_2d_target", "result_beyond_frame", "open_component", "starts_differ"):
+        if cls in ("time_extent_2d_target", "result_beyond_frame", "open_component"):
             out.append(cls)
         return out
-    if fl["t3d"]:
-        out.append("t3d")
-    if v == "accept" and not c["bypass"] and cls in ("absent_stop", "starts_differ"):
-        out.append("range_" + cls)
-    out += [k for k in ("short_procs", "multi_weights", "chi_scalar_sub") if fl[k]]
+    if v == "accept" and cls == "open_component" and not c["bypass"]:
+        out.append("open_component")
+    if fit_flags(c)["short_procs"]:
+        out.append("short_procs")
     return out
 
 
@@ -486,9 +487,21 @@ def gen_fit_one(r, flagged_share):
         otime = (0, steps)
     else:
         otime = sub_range(r, steps)
-    if flag == "t3d":
-        trng = rng3((0, steps), tr, tc)
-        otime = (0, steps)
+    if multi and (flag == "t3d" or (flag is None and r.random() < 0.35)):
+        # 6-value target range on a time-domain target
+        tm = (0, steps) if (flag == "t3d" and r.random() < 0.4) else pick_dim(r, tsteps, steps)
+        otime = tm
+        q = r.random()
+        if q < 0.3 and tm[1] - tm[0] <= steps:
+            a = r.randrange(0, steps - (tm[1] - tm[0]) + 1)
+            otime = (a, a + tm[1] - tm[0])                    # shifted in time, equal extent
+        elif q < 0.4:
+            tm, otime = ((None, None), (None, None)) if tm == (0, tsteps) else ((tm[0], None) if tm[1] == tsteps else tm, otime)
+        elif q < 0.45:
+            otime = sub_range(r, steps)
+        trng = rng3(tm, tr, tc)
+    elif not multi and flag is None and r.random() < 0.03:
+        trng = rng3((0, 1), tr, tc)        # 3-D range on 2-D target data: "not a 3 dimensional array" (not judged)
     else:
         trng = rng2(tr, tc)
     orng = rng3(otime, orow, ocol)
@@ -547,13 +560,18 @@ def gen_fit_sizes(r, quick=True):
                     pattern = [[r.randrange(0, 10) for _ in range(cols)] for _ in range(rows)]
                     targets = [[[[r.randrange(0, 40) for _ in range(tsize["col"])] for _ in range(tsize["row"])]
                                 for _ in range(tsize["time"])]]
+                    three = False
                     if dim == "time":
-                        otime = rng["time"]                # 2-D target range: the target's time axis is taken whole
+                        otime = rng["time"]
+                        three = beyond != "inside" or r.random() < 0.5    # else a 2-D target range: time axis taken whole
+                    elif multi and r.random() < 0.3:
+                        otime, three = rng["time"], True
                     else:
                         otime = (None, None) if r.random() < 0.5 else (0, steps)
+                    trng = rng3(rng["time"], rng["row"], rng["col"]) if three else rng2(rng["row"], rng["col"])
                     c = dict(kind="fit", ff=r.choice(["abs", "sq"]), free=0, multi=multi, steps=steps, pattern=pattern,
                              offsets=None if r.random() < 0.5 else [r.randrange(0, 6)], targets=targets,
-                             trng=rng2(rng["row"], rng["col"]), orng=rng3(otime, rng["row"], rng["col"]), weights=None,
+                             trng=trng, orng=rng3(otime, rng["row"], rng["col"]), weights=None,
                              gain=r.choice([1, 2]), bias=r.choice([0, 1]), bypass=False, flag=None, rel="sizes")
                     cases.append(c)
     return cases
